@@ -28,19 +28,22 @@ from collections.abc import Callable
 from typing import Any
 
 from ..ast.fpyast import (
+    Call,
     Expr,
     Fst,
+    IndexedAssign,
     Integer,
     ListComp,
     ListRef,
     NamedId,
     Snd,
     Stmt,
+    StmtBlock,
     TupleBinding,
     UnderscoreId,
     Var,
 )
-from ..ast.visitor import DefaultTransformVisitor
+from ..ast.visitor import DefaultTransformVisitor, DefaultVisitor
 from ..utils import Id
 from .utils import clone
 
@@ -104,6 +107,42 @@ def plan_for_zip(args: list[Expr], slot: Slot) -> Plan | None:
     if isinstance(slot, (NamedId, UnderscoreId)):
         return Plan(list(args), [slot], tupled=True)
     return None
+
+
+class _WriteScan(DefaultVisitor):
+    """Does a block store into a list, directly or through an FPy callee?"""
+
+    def __init__(self, seen: set[int]):
+        self.found = False
+        self.seen = seen
+
+    def _visit_indexed_assign(self, stmt: IndexedAssign, ctx):
+        self.found = True
+
+    def _visit_call(self, e: Call, ctx):
+        # `Function` cannot be imported here (it imports the transforms);
+        # anything carrying a `FuncDef` under `.ast` is an FPy callee
+        callee = getattr(e.fn, 'ast', None)
+        body = getattr(callee, 'body', None)
+        if isinstance(body, StmtBlock) and id(callee) not in self.seen:
+            self.seen.add(id(callee))
+            self._visit_block(body, None)
+        super()._visit_call(e, ctx)
+
+
+def body_may_write(body: StmtBlock) -> bool:
+    """Whether a loop body may change the elements of some list.
+
+    ``zip(...)`` and ``enumerate(...)`` build their tuples when the loop is
+    entered, so the body iterates over the *old* elements whatever it stores
+    meanwhile.  The indexed rewrite re-reads ``_srcK[i]`` per iteration and
+    would see the new ones, so a body that stores into a list -- any list: it
+    may alias a source -- itself or in an FPy function it calls is left to be
+    materialized.
+    """
+    scan = _WriteScan(set())
+    scan._visit_block(body, None)
+    return scan.found
 
 
 def is_access_path(e: Expr) -> bool:
